@@ -102,6 +102,10 @@ pub fn vzeroed(n: usize) -> (r: Vec<u8>)
 pub assume_specification<T: Clone>[<[T]>::fill](s: &mut [T], value: T)
     ensures final(s)@.len() == old(s)@.len();
 
+// Option<&T>::copied (Rust reference: maps Some(&x) to Some(x))
+pub assume_specification<'a, T: Copy>[Option::<&'a T>::copied](o: Option<&'a T>) -> (r: Option<T>)
+    ensures r == (match o { Some(x) => Some(*x), None => None::<T> });
+
 // io::Error::kind (Rust reference)
 pub assume_specification[std::io::Error::kind](e: &std::io::Error) -> (r: std::io::ErrorKind)
     ensures r == io_kind(*e);
